@@ -329,7 +329,20 @@ func setFlag(f []bool, i int) []bool {
 
 // isolated runs the named corpus case in a child when this process is a normal (non-replay)
 // run; it reports true when the caller should run the case body itself.
-func isolated(e *ev.Env, c *ev.Case, engine string, input string) (runHere bool) {
+//
+// The child does not re-derive the case from its id (walking a family of millions of ids costs
+// more than the case): it gets the input itself through the environment and runs it as the
+// corpus case isoCase.
+const isoCase = "corpus:isolated-input"
+
+// isoInput returns the payload and meta string handed to an isolated child.
+func isoInput() ([]byte, string) {
+	b, _ := hex.DecodeString(os.Getenv("WIRE_ISO_INPUT"))
+	return b, os.Getenv("WIRE_ISO_META")
+}
+
+func isolated(e *ev.Env, c *ev.Case, engine string, payload []byte, meta string) (runHere bool) {
+	input := hexOf(payload)
 	if e.Only != "" {
 		return true
 	}
@@ -351,11 +364,11 @@ func isolated(e *ev.Env, c *ev.Case, engine string, input string) (runHere bool)
 	res.Close()
 	defer os.Remove(resPath)
 	defer os.Remove(resPath + ".nt")
-	cmd := exec.Command(exe, "-engine", engine, "-tier", e.Tier, "-seed", strconv.FormatUint(e.Seed, 10), "-only", c.ID, "-out", resPath)
+	cmd := exec.Command(exe, "-engine", engine, "-tier", e.Tier, "-seed", strconv.FormatUint(e.Seed, 10), "-only", isoCase, "-out", resPath)
 	var stderr bytes.Buffer
 	cmd.Stderr = &stderr
 	cmd.Stdout = &stderr
-	cmd.Env = append(os.Environ(), "GOTRACEBACK=single")
+	cmd.Env = append(os.Environ(), "GOTRACEBACK=single", "WIRE_ISO_INPUT="+hex.EncodeToString(payload), "WIRE_ISO_META="+meta)
 	runErr := cmd.Run()
 	e.Eval(1)
 	e.Stat("isolated_cases_run", 1)
@@ -422,9 +435,14 @@ func mergeChild(e *ev.Env, c *ev.Case, b []byte) {
 	}
 }
 
-// fatalCandidate reports whether the bytes carry a flash cookie whose value can start with an
-// array32 header (0xdd): over-approximated, a false positive only costs a child process.
+// fatalCandidate reports whether the bytes carry one of the two known ways to ask for more memory
+// than the address space holds: a flash cookie whose value can start with an array32 header
+// (0xdd), or a zstd frame that declares a window of 16 MiB or more. Over-approximated: a false
+// positive only costs a child process.
 func fatalCandidate(raw []byte) bool {
+	if zstdDeclared(raw) >= 16<<20 {
+		return true
+	}
 	name := []byte(fiber.FlashCookieName)
 	for off := 0; ; {
 		i := bytes.Index(raw[off:], name)
@@ -438,6 +456,16 @@ func fatalCandidate(raw []byte) bool {
 			}
 		}
 		off = j
+	}
+}
+
+// journalInput writes the raw input to the journal before it is served, so that a fatal error is
+// attributable without a replay. In the thorough tier (millions of cases, gigabytes of hex) only
+// the fatal candidates are written; every case is still journalled by id and replays from
+// (seed, id).
+func journalInput(e *ev.Env, tag string, raw []byte) {
+	if e.Quick() || e.Only != "" || fatalCandidate(raw) {
+		e.Journal(tag + " " + hexOf(raw))
 	}
 }
 
@@ -471,14 +499,4 @@ func injectedLine(b []byte) (name, after string) {
 		return string(l[:k]), after
 	}
 	return "", ""
-}
-
-// journalInput writes the raw input to the journal before it is served, so that a fatal error is
-// attributable without a replay. In the thorough tier (millions of cases, gigabytes of hex) only
-// inputs that carry a flash cookie with an array32 header - the one known way to ask for
-// gigabytes - are written; every case is still journalled by id and replays from (seed, id).
-func journalInput(e *ev.Env, tag string, raw []byte) {
-	if e.Quick() || e.Only != "" || fatalCandidate(raw) {
-		e.Journal(tag + " " + hexOf(raw))
-	}
 }
